@@ -138,9 +138,12 @@ def rule_who_may_write(facts):
                                       "%s assigns InputRef.cursor from %s, which is neither a token advance hooked by on_token, nor a "
                                       "checkpoint restore hooked by on_rewind, nor the copy-back of a child input: the Inspector is not told "
                                       "that the position changed" % (b["qname"], fmt_roots(pv.of_rvalue(rv, 0))[:160]), b["file"], s_.get("line")))
-    for q in HT.CURSOR_WRITERS:
-        if q not in seen and not HT.CURSOR_WRITERS[q][2]:
-            r.errors.append("anchor %s: listed cursor writer no longer touches the cursor (table out of date)" % q)
+    # a listed writer that no longer writes the cursor (it delegates to another listed writer, or was removed) is not a problem;
+    # fail closed only when (almost) none of the listed writers is seen any more, i.e. the analysis lost the field
+    missing = [q for q in HT.CURSOR_WRITERS if q not in seen and not HT.CURSOR_WRITERS[q][2]]
+    if len(missing) > len(HT.CURSOR_WRITERS) // 2:
+        r.errors.append("anchors %s: most listed cursor writers no longer touch the cursor (analysis lost the field?)" % missing[:4])
+    r.info = dict(getattr(r, "info", {}) or {}, writers_no_longer_writing=missing)
     sec = {}
     for b in facts.bodies:
         evs = secondary_events(b)
@@ -343,6 +346,22 @@ def rule_save_rewind(facts):
         else:
             ok_t = len(trunc) == 0
             dt = "no truncation" if ok_t else "truncates"
+        # delegation: rewind() may hand the position/inspector part to rewind_input(self, checkpoint) (checked on its own below)
+        deleg = _one_call(b, lambda f: f is not None and f["name"] == "rewind_input" and (f.get("self_ty") or "").startswith("input::InputRef"))
+        if want_trunc and len(deleg) == 1 and not hook and not cw:
+            t = deleg[0][2]
+            a0 = pv.of_operand(t["args"][0]["op"])
+            a1 = pv.of_operand(t["args"][1]["op"])
+            d_ok = a0 == {("arg", 1)} and a1 == {("arg", 2)} and on_all_paths(b, [deleg[0][0]])
+            allp = (not (ok_t and want_trunc)) or on_all_paths(b, [trunc[0][0]])
+            ok = ok_t and d_ok and allp
+            r.ob(ok)
+            r.samples.append({q.split("::")[-1]: "%s; delegates to rewind_input(self, checkpoint) on every path=%s" % (dt, d_ok)})
+            if not ok:
+                r.violations.append(V("HOOKS-SAVE-REWIND", q, "rewind conformance",
+                                      "rewind must truncate errors.secondary to checkpoint.err_count and hand the same checkpoint to "
+                                      "rewind_input on every path; found: %s; rewind_input(%s, %s)" % (dt, fmt_roots(a0), fmt_roots(a1)), *loc(b)))
+            continue
         ok_h = len(hook) == 1
         dh = ""
         if ok_h:
